@@ -180,5 +180,6 @@ func runC19(cfg config) *hx.Report {
 	}
 	rep.Distribution["sidecar-created"] = nSide
 	cf.Close()
+	runC19large(cfg, rep)
 	return rep
 }
